@@ -18,7 +18,7 @@ import (
 func init() {
 	register("C14", func(c *Ctx) {
 		c.Level = "model_checking"
-		c.Rule = "histories of one client (every sequence of up to 3 (quick) / 4 (thorough) operations over {L(d1), Q(d1), L(d2), Q(d2), I(short), I(long), S}: L = timed catastrophic match, Q = timed quick match, I = idle, S = StopTimeoutClock) and pairs of concurrent clients whose k-th timed calls are phase-aligned (9 phases), on the real clock code under a controlled scheduler with virtual time; every interleaving up to the preemption bound and every timer-jitter deviation up to the deviation bound is executed. Oracle per execution (exact, virtual time): L returns a timeout error with elapsed in [d - J - 2 ticks, d + 3P + c + J + 2 ticks]; Q returns no error; at quiescence the clock goroutine has returned and is not marked running; no deadlock. A scenario is non-trivial when its executions show more than one distinct observable outcome."
+		c.Rule = "histories of one client (every sequence of up to 3 (quick) / 4 (thorough) operations over {L(d1), Q(d1), L(d2), Q(d2), I(short), I(long), S}: L = timed catastrophic match, Q = timed match that finishes at once, I = idle, S = StopTimeoutClock) and pairs of concurrent clients whose k-th timed calls are phase-aligned (3 phases quick, 9 thorough), on the real clock code under a controlled scheduler with virtual time (every atomic load costs c); plus free-mode groups, in which op Z makes a client's operations cost nothing so that the calls after it interleave in every order up to the preemption bound, with the deviation 'hold' (the running free thread is descheduled until the next timer event): stale+free (the clock has run out, two clients come back at the same instant), exit+free (a client comes back around the instant the clock goroutine decides to exit), together+free. Every interleaving up to the preemption bound and every deviation (timer jitter, hold) up to the deviation bound is executed. Oracle per execution (exact, virtual time): L returns a timeout error with elapsed in [d - J - 2 ticks, d + 3P + c + J + 2 ticks]; Q never reports a timeout before d - J - 2 ticks have passed since the call; at quiescence the clock goroutine has returned and is not marked running; no deadlock. A scenario is non-trivial when its executions show more than one distinct observable outcome."
 		c.Assume("scheduling points: every sync / atomic / time operation of package regexp2 (import-rewritten through a build overlay); plain memory accesses between them are covered by the free-running race-detector leg of C11")
 		c.Assume("StopTimeoutClock is explored between calls of the same client and concurrently with other clients only while they are idle (documented as test-only)")
 		c.Assume("virtual cost of one timeout check c = 250us, clock period P = 4ms (also 1ms in the thorough tier), jitter J = 500us, d1 = 16ms, d2 = 40ms")
@@ -241,7 +241,7 @@ func c14Scenarios(tier string) []schedScenario {
 			}
 			tq := dry[0][1].t0
 			for _, bop := range []c14op{{'Q', d1}, {'L', d1}, {'Q', d2}} {
-				phases := []int64{-2, -1, 0, 1, 2}
+				phases := []int64{-1, 0, 1}
 				if thorough {
 					phases = []int64{-4, -3, -2, -1, 0, 1, 2, 3, 4}
 				}
@@ -294,6 +294,9 @@ func c14Scenarios(tier string) []schedScenario {
 	// decides to exit (1 s of slop after the last deadline); in free mode, and with the "held up until the next
 	// timer event" deviation, its clock operations interleave with the clock goroutine's last iterations
 	for k := 0; k <= 10; k++ {
+		if !thorough && k%2 == 1 {
+			continue
+		}
 		idle := time.Second + time.Duration(k)*4*time.Millisecond
 		for _, d := range []time.Duration{d1, d2} {
 			a := []c14op{{'Q', d1}, {'I', idle}, {'Z', 0}, {'Q', d}}
@@ -302,7 +305,7 @@ func c14Scenarios(tier string) []schedScenario {
 				pb, dbf = 3, 2
 			}
 			mk(fmt.Sprintf("exit+free P=4ms: %v", a), [][]c14op{a}, 4*time.Millisecond, pb, dbf, 0)
-			if thorough || k%2 == 0 {
+			if thorough || k%4 == 0 {
 				b := []c14op{{'I', idle + 4*time.Millisecond}, {'Z', 0}, {'Q', d1}}
 				mk(fmt.Sprintf("exit+free P=4ms: %v || %v", a, b), [][]c14op{a, b}, 4*time.Millisecond, 2, 1, 0)
 			}
